@@ -413,6 +413,28 @@ def same_kind_nesting(rng, prog):
     return rw(prog)
 
 
+def error_is_in_the_header(text):
+    """True iff the reference parser's first offending token comes before the first statement that does not begin with a
+    header keyword (statements = runs of tokens between newlines / semicolons at nesting depth 0)."""
+    ref = refparse.parse(text)
+    if ref[0] != "reject":
+        return False
+    rej, toks = ref[1], ref[2]
+    if getattr(rej, "semantic", False) or rej.index >= len(toks):
+        return False  # a cut-off header: the header-only parse may stop before the end of input
+    start = True
+    for k, t in enumerate(toks):
+        if k >= rej.index:
+            return True
+        if t.kind == "NL" or t.text == ";":
+            start = True
+            continue
+        if start and t.text not in ("let", "register", "map", "from"):
+            return False
+        start = False
+    return True
+
+
 def near_misses(ctx, prog, n):
     rec = ctx.rec
     rng = ctx.rng
@@ -463,6 +485,13 @@ def near_misses(ctx, prog, n):
             rec.count("illegal-character-texts-judged")
         if kind in ("exotic-character", "truncate") and ctx.rng.random() < 0.3:
             entry_points_agree(ctx, text)
+        if info.get("cmp") == "both-reject" and error_is_in_the_header(text):
+            # the first offending token stands before any body statement: the header-only entry points, which read up to the
+            # first body statement, meet it as well
+            oh = lib.outcome(lib.parse_header, text)
+            rec.count("rejected-headers-through-the-header-only-entry-point")
+            if oh[0] == "ok":
+                rec.violation(sig("C02", "near-miss:header-only-parse-accepts-a-rejected-header"), {"text": text, "mutation": kind}, {"kind": "text", "text": text})
         rec.count("outcome:ref-%s/lib-%s" % (info["ref"], info["lib"]))
         if info.get("cmp") == "both-reject" and "pos" in info:
             rec.count("both-reject:position-checked")
